@@ -48,6 +48,9 @@ std::vector<Eigenspace> solveSEWithSplinePotential(PSpline v) {
   // Get the basis.
   const std::vector<Spline> basis = setUpBasis(v.getSupport().getGrid());
 
+  // Without any basis function there is nothing to diagonalise.
+  if (basis.empty()) return {};
+
   // Hamiltonian operator -1/2 d^2/dx^2 + v(x)
   auto hamiltonOperator = (static_cast<data_t>(-1) / 2) * operators::Dx<2>{} +
                           operators::SplineOperator{std::move(v)};
@@ -77,8 +80,8 @@ std::vector<Eigenspace> solveSEWithSplinePotential(PSpline v) {
   std::vector<Eigenspace> ret;
   ret.reserve(10);
   // Return the eigenvalues and eigenfunctions corresponding to the ten lowest
-  // eigenvalues.
-  for (size_t i = 0; i < 10; i++) {
+  // eigenvalues (or fewer, if the basis is smaller than that).
+  for (size_t i = 0; i < std::min<size_t>(10, basis.size()); i++) {
     const auto eigenvalue = eigenvalues(i);
     const auto eigenvector = toStdVector(eigenvectors.col(i));
 
